@@ -333,48 +333,3 @@ Proof.
            (Z.eqb_spec (v_token a) (v_token b)), (Z.eqb_spec (v_token b) (v_token a)); lia.
 Qed.
 
-(* ---- witnesses inside each finding class (the faithful model violates the property) --- *)
-
-Definition U : Z := stake_unit.
-
-(* F1: a revert across an UpdateDelegation leaves the restored validator with
-   another delegation list (shared backing array, cap 4 / len 3) *)
-Definition w_f1 : list op :=
-  [OFund 1; OFund 3; OFund 4; OFund 5; OCreate 100 1 1 (10 * U) 10;
-   ODelegate 3 100 (3 * U); ODelegate 4 100 (4 * U); ODelegate 5 100 (5 * U);
-   OSnapshot; ODelegate 1 100 U; ORevert 0].
-(* F2: RemoveValidator decrements the statistics, IntermediateRoot decrements them again *)
-Definition w_f2 : list op :=
-  [OCreate 100 1 1 (10 * U) 10; OCreate 200 1 1 (20 * U) 20; ORoot; ORemove 100; ORoot].
-(* F3: GetValidatorsForUpdate reloads the persisted index and forgets a new validator *)
-Definition w_f3 : list op :=
-  [OCreate 100 1 1 (10 * U) 10; ORoot; OCreate 200 2 1 (20 * U) 20; OList].
-(* F4: Copy drops the uncommitted delegation list of an account *)
-Definition w_f4 : list op :=
-  [OFund 1; OCreate 100 1 1 (10 * U) 10; ODelegate 1 100 (3 * U); OCopy].
-(* F5: a delegation from an address without account is recorded on the validator only *)
-Definition w_f5 : list op :=
-  [OCreate 100 1 1 (10 * U) 10; ODelegate 1 100 (3 * U)].
-(* F6: IsInvalid() looks at the low 64 bits: a validator whose 19 components are
-   all below one stake unit and sum to 2^64 is deleted with its delegations *)
-Definition w_f6 : list op :=
-  OCreate 100 1 0 446744073709551634 0
-  :: map (fun d => OFund d) (map Z.of_nat (seq 1 18))
-  ++ map (fun d => ODelegate d 100 (U - 1)) (map Z.of_nat (seq 1 18))
-  ++ [ORoot].
-
-Definition refutes (w : list op) : Prop :=
-  safe (removelast w) = true /\ safe w = false /\
-  exists s, run init w = Some s /\ inv_all s = false.
-
-Lemma refuted_f1 : refutes w_f1. Proof. split; [|split]; [vm_compute; reflexivity..|]. eexists. split; vm_compute; reflexivity. Qed.
-Lemma refuted_f2 : refutes w_f2. Proof. split; [|split]; [vm_compute; reflexivity..|]. eexists. split; vm_compute; reflexivity. Qed.
-Lemma refuted_f3 : refutes w_f3. Proof. split; [|split]; [vm_compute; reflexivity..|]. eexists. split; vm_compute; reflexivity. Qed.
-Lemma refuted_f4 : refutes w_f4. Proof. split; [|split]; [vm_compute; reflexivity..|]. eexists. split; vm_compute; reflexivity. Qed.
-Lemma refuted_f5 : refutes w_f5. Proof. split; [|split]; [vm_compute; reflexivity..|]. eexists. split; vm_compute; reflexivity. Qed.
-Lemma refuted_f6 : refutes w_f6. Proof. split; [|split]; [vm_compute; reflexivity..|]. eexists. split; vm_compute; reflexivity. Qed.
-
-Theorem full_statement_refuted : ~ (forall ops s, run init ops = Some s -> inv_all s = true).
-Proof.
-  intros H. destruct refuted_f2 as (_ & _ & s & Hr & Hi). rewrite (H _ _ Hr) in Hi. discriminate.
-Qed.
